@@ -16,7 +16,18 @@
      the k pairs (p c) are the connections CloseWithError was called on during the op.
    Peer, connection, tag and protection-tag ids are small integers assigned by
    the harness; time unit = 1 virtual second; all decaying tags are registered
-   at creation. *)
+   at creation.
+
+   CONCURRENT case (testing only, no theorem):
+     1 NP low high grace  NPRE op..  NW  (LEN op..) x NW   obs
+   a sequential prefix of NPRE ops (same encoding, no observations) connects
+   the peers; then NW goroutines run their op lists concurrently with each
+   other and with goroutines calling TrimOpenConns in a loop.  Each goroutine
+   only uses ops 1..5, its own connection ids and its own tag id, never a
+   peer's first connection, never Protect/clock, so the final bookkeeping does
+   not depend on the interleaving and protection / grace of every peer is
+   constant during the concurrent phase.  obs is taken at quiescence; its
+   closed list is everything TrimOpenConns closed during the phase. *)
 From Coq Require Import List Arith ZArith Bool.
 From Verif Require Import lib.Wire c14.Model.
 Import ListNotations.
@@ -201,6 +212,28 @@ Definition force_prop (cfg : config) (s : astate) (cl : list (nat * nat)) : bool
                        (pids s)) cl
   && (if acount s <=? c_low cfg then is_nil cl else true).
 
+(* number of the first violated clause (0 = none): 11 closes a connection of a
+   protected / in-grace / unknown peer, 12 closes a peer while a lower-valued
+   eligible peer is kept, 13 not idle at or below the low watermark, 14 more
+   than low-watermark eligible connections left; 21 forced trim closes an
+   untracked connection, 22 a protected peer before all unprotected ones,
+   23 order within a class, 24 not idle at or below the low watermark *)
+Definition trim_code (cfg : config) (s : astate) (cl : list (nat * nat)) : Z :=
+  if negb (closes_only_eligible cfg s cl) then 11
+  else if negb (lowest_first cfg s cl) then 12
+  else if negb (idle_below_low cfg s cl) then 13
+  else if negb (reaches_low cfg s cl) then 14 else 0.
+
+Definition force_code (cfg : config) (s : astate) (cl : list (nat * nat)) : Z :=
+  if negb (forallb (fun x : nat * nat => memn (snd x) (a_conns (ap_at s (fst x)))) cl) then 21
+  else if negb (forallb (fun x : nat * nat => negb (is_prot (a_prot s) (fst x)) || all_unprotected_closed s cl) cl) then 22
+  else if negb (forallb (fun x : nat * nat =>
+               forallb (fun q => negb (Bool.eqb (is_prot (a_prot s) q) (is_prot (a_prot s) (fst x))
+                                       && keptp s cl q
+                                       && (total (ap_at s q) <? total (ap_at s (fst x)))))
+                       (pids s)) cl) then 23
+  else if negb (if acount s <=? c_low cfg then is_nil cl else true) then 24 else 0.
+
 (* ---- what the code can produce (tighter than the property; used by the
         correspondence): whole peers, and no more peers than needed ---------- *)
 Definition ncand_a (cfg : config) (s : astate) : Z :=
@@ -245,14 +278,14 @@ Definition forget_pruned (np : nat) (s : astate) (o : obs) : astate :=
             (seq 0 np) s.
 
 (* one monitored step: the new bookkeeping, or the number of the violated
-   clause (1 = trim clauses, 2 = forced-trim clauses, 3 = connection count,
-   4 = tag total of some peer) *)
+   clause (11..14 trim clauses, 21..24 forced-trim clauses, see trim_code;
+   3 = connection count, 4 = tag total of some peer) *)
 Definition mon_step (cfg : config) (np : nat) (s : astate) (o : op) (x : obs) : astate + Z :=
   let s1 := astep cfg s o in
   let chk :=
     match o with
-    | Trim => if trim_prop cfg s (o_closed x) then 0 else 1
-    | ForceTrim => if force_prop cfg s (o_closed x) then 0 else 2
+    | Trim => trim_code cfg s (o_closed x)
+    | ForceTrim => force_code cfg s (o_closed x)
     | _ => 0
     end in
   if negb (chk =? 0) then inr chk else
@@ -307,6 +340,23 @@ Fixpoint nodup_pairs (l : list (nat * nat)) : list (nat * nat) :=
   | x :: r => if memp x r then nodup_pairs r else x :: nodup_pairs r
   end.
 
+(* correspondence only (no theorem needs them): the selection loop stops as
+   soon as the target is reached, so dropping some closed peer would leave
+   more than low-watermark eligible connections; and getConnsToCloseEmergency
+   enters its second pass (the only one that can select protected peers) iff
+   the unprotected connections U do not reach the target and the remaining
+   target still exceeds U (the code compares with the decremented target) *)
+Definition trim_tight (cfg : config) (s : astate) (cl : list (nat * nat)) : bool :=
+  is_nil cl
+  || existsb (fun x : nat * nat =>
+                c_low cfg <? remaining_eligible cfg s cl + zlen (a_conns (ap_at s (fst x)))) cl.
+
+Definition force_tight (cfg : config) (s : astate) (cl : list (nat * nat)) : bool :=
+  let u := zsum (map (fun p => if is_prot (a_prot s) p then 0 else zlen (a_conns (ap_at s p))) (pids s)) in
+  let target := acount s - c_low cfg in
+  let second_pass := (u <? target) && (u <? target - u) in
+  second_pass || forallb (fun x : nat * nat => negb (is_prot (a_prot s) (fst x))) cl.
+
 Fixpoint conform_run (cfg : config) (np : nat) (s : state) (i : Z) (tr : list (op * obs)) : list Z :=
   match tr with
   | [] => []
@@ -314,8 +364,8 @@ Fixpoint conform_run (cfg : config) (np : nat) (s : state) (i : Z) (tr : list (o
       let '(s', cl) := step isort cfg s o in
       let closed_ok :=
         match o with
-        | Trim => trim_ok cfg (abs s) (o_closed x)
-        | ForceTrim => force_prop cfg (abs s) (o_closed x)
+        | Trim => trim_ok cfg (abs s) (o_closed x) && trim_tight cfg (abs s) (o_closed x)
+        | ForceTrim => force_prop cfg (abs s) (o_closed x) && force_tight cfg (abs s) (o_closed x)
         | _ => is_nil (o_closed x)
         end in
       if negb closed_ok then [ERR_MISMATCH; i; 1; zlen (o_closed x); zlen cl]
@@ -436,14 +486,109 @@ Definition decode_case (l : list Z) : option (config * nat * list (op * obs)) :=
   | _ => None
   end.
 
+(* ---- concurrent cases ------------------------------------------------------------------ *)
+Fixpoint decode_ops (n : nat) (l : list Z) : option (list op * list Z) :=
+  match n with
+  | O => Some ([], l)
+  | S k =>
+      match decode_op l with
+      | Some (o, r) =>
+          match decode_ops k r with
+          | Some (os, r') => Some (o :: os, r')
+          | None => None
+          end
+      | None => None
+      end
+  end.
+
+Fixpoint decode_workers (n : nat) (l : list Z) : option (list (list op) * list Z) :=
+  match n with
+  | O => Some ([], l)
+  | S k =>
+      match l with
+      | len :: r =>
+          if (len <? 0) || (100000 <? len) then None else
+          match decode_ops (znat len) r with
+          | Some (os, r1) =>
+              match decode_workers k r1 with
+              | Some (ws, r2) => Some (os :: ws, r2)
+              | None => None
+              end
+          | None => None
+          end
+      | [] => None
+      end
+  end.
+
+Definition worker_op_ok (o : op) : bool :=
+  match o with
+  | Connected _ _ | Disconnected _ _ | TagPeer _ _ _ | UntagPeer _ _ | UpsertTag _ _ _ => true
+  | _ => false
+  end.
+
+Definition decode_conc (l : list Z) : option (config * nat * list op * list (list op) * obs) :=
+  match l with
+  | 1 :: np :: low :: high :: grace :: npre :: r =>
+      if (np <? 0) || (64 <? np) || (npre <? 0) || (100000 <? npre) then None else
+      match decode_ops (znat npre) r with
+      | Some (pre, nw :: r1) =>
+          if (nw <? 0) || (64 <? nw) then None else
+          match decode_workers (znat nw) r1 with
+          | Some (ws, r2) =>
+              match decode_obs (znat np) r2 with
+              | Some (x, []) =>
+                  if forallb (forallb worker_op_ok) ws
+                  then Some (mkCfg low high grace 1 [], znat np, pre, ws, x) else None
+              | _ => None
+              end
+          | None => None
+          end
+      | _ => None
+      end
+  | _ => None
+  end.
+
+Definition arun (cfg : config) (s : astate) (ops : list op) : astate := fold_left (astep cfg) ops s.
+
+(* at quiescence count and totals are what the operations imply, whatever the
+   interleaving with the trims was; no connection of a peer that was protected
+   or inside its grace period throughout was closed *)
+Definition monitor_conc (cfg : config) (np : nat) (pre : list op) (ws : list (list op)) (x : obs) : list Z :=
+  let a0 := arun cfg (ainit cfg) pre in
+  let a1 := arun cfg a0 (concat ws) in
+  if negb (forallb (fun pc : nat * nat => eligible cfg a0 (fst pc)) (o_closed x)) then [ERR_PROPERTY; 0; 11]
+  else if negb (o_count x =? acount a1) then [ERR_PROPERTY; 0; 3]
+  else if negb (list_eqb pobs_eqb (o_peers x) (map (expect_peer a1) (seq 0 np))) then [ERR_PROPERTY; 0; 4]
+  else [].
+
+Definition conform_conc (cfg : config) (np : nat) (pre : list op) (ws : list (list op)) (x : obs) : list Z :=
+  let s1 := run isort cfg (run isort cfg (init cfg) pre) (concat ws) in
+  if obs_state_eqb (mobs np s1 []) x then [] else [ERR_MISMATCH; 0; 2; count s1; o_count x].
+
 Definition conform_case (l : list Z) : list Z :=
-  match decode_case l with
-  | Some (cfg, np, tr) => conform_run cfg np (init cfg) 0 tr
-  | None => [ERR_MALFORMED; 0]
+  match l with
+  | 1 :: _ =>
+      match decode_conc l with
+      | Some (cfg, np, pre, ws, x) => conform_conc cfg np pre ws x
+      | None => [ERR_MALFORMED; 1]
+      end
+  | _ =>
+      match decode_case l with
+      | Some (cfg, np, tr) => conform_run cfg np (init cfg) 0 tr
+      | None => [ERR_MALFORMED; 0]
+      end
   end.
 
 Definition monitor_case (l : list Z) : list Z :=
-  match decode_case l with
-  | Some (cfg, np, tr) => monitor cfg np tr
-  | None => [ERR_MALFORMED; 0]
+  match l with
+  | 1 :: _ =>
+      match decode_conc l with
+      | Some (cfg, np, pre, ws, x) => monitor_conc cfg np pre ws x
+      | None => [ERR_MALFORMED; 1]
+      end
+  | _ =>
+      match decode_case l with
+      | Some (cfg, np, tr) => monitor cfg np tr
+      | None => [ERR_MALFORMED; 0]
+      end
   end.
